@@ -45,7 +45,8 @@ class C06:
     rule = ("valid texts (hand-built and random schemas incl. free-form sections and default-created single sections) "
             "rendered over several lines with comments of all styles, multi-line strings, backslash-newline continuations, "
             "nested sections and 0-2 levels of top-level include files; for each base text one sub-case per token position "
-            "with an injected error (wrong token kind / deletion / cut / bad escape / unterminated string / bad value), in the "
+            "with an injected error (wrong token kind / deletion / cut / bad escape / unterminated string / bad value / a name "
+            "written with the path characters | and =), in the "
             "main text or inside an included file, via buffer or file. Oracle: language model gives accept/reject and the "
             "offending token; reject => PARSE_ERROR, >= 1 diagnostic, last diagnostic names the token's file and the line on "
             "which it ends, none beyond; accept (no deprecated options) => zero diagnostics. Non-trivial = offending token on "
@@ -62,10 +63,17 @@ class C06:
         info = {"nontrivial": False, "classes": []}
         if e is None:
             return "no-result", "no result", info
-        if exp.get("grey"):
-            return None, None, info
         rc = e["rc"]
         diags = unhex_diag(e)
+        if exp.get("grey"):
+            # the language model does not decide this text (e.g. a name written with the path characters | and =), but
+            # the two implications of the property need no model: rejected => reported, accepted => silent
+            info["classes"].append("grey-text")
+            if rc != 0 and not diags:
+                return "no-diagnostic/grey-text", "text %r: parse returned %d without any diagnostic" % (text, rc), info
+            if rc == 0 and diags and not has_deprecated(schema):
+                return "spurious-diagnostic/grey-text", "accepted text %r delivered diagnostics %r" % (text, diags), info
+            return None, None, info
         if exp["accept"] != (rc == 0):
             return ("verdict/%s" % ("accepted-invalid" if rc == 0 else "rejected-valid"),
                     "text %r files %r: model %s (%s) but parse returned %d, diag %r" %
@@ -198,9 +206,16 @@ class C06:
             subs = [{"main": main, "files": files}]
             idx = [i for i, t in enumerate(main) if t[0] in ("s", "p")]
             for i in idx:
-                kind = draw(st.sampled_from(["wrong", "del", "cut", "badesc", "unterm", "badval", "wrong", "cut"]))
+                kind = draw(st.sampled_from(["wrong", "del", "cut", "badesc", "unterm", "badval", "wrong", "cut", "pathname"]))
                 t = main[i]
-                if kind == "wrong":
+                if kind == "pathname":
+                    # a name (or value) written with the characters of the path syntax
+                    x = t[1] if t[0] == "s" and t[1] else "zz"
+                    y = draw(st.sampled_from([o["n"] for o in opts] + ["zz"]))
+                    form = draw(st.sampled_from(["%s|", "%s|%s", "|%s", "%s||%s", "%s||", "%s=1|%s", "%s=|%s", "%s='t'|%s", "%s|%s|", "%s=", "=%s"]))
+                    name = form % ((x, y)[:form.count("%s")])
+                    mut = main[:i] + [["s", name, "dq" if ("=" in name or "'" in name) else "bare"]] + main[i + 1:]
+                elif kind == "wrong":
                     rep = ["p", "}"] if t[0] == "s" else ["s", "zz", "bare"]
                     mut = main[:i] + [rep] + main[i + 1:]
                 elif kind == "del":
